@@ -77,6 +77,7 @@ MUTANTS = [
  ("c03-iterator-action-allocates", "C03", [(BE, "            ex.store(slot, signal, act);\n            write.wake_readers();", "            ex.store(slot, signal, act);\n            let _dbg = format!(\"{}\", signal);\n            write.wake_readers();")], 12000),
  ("c18-poison-fatal", "C18", [(HL, "            .unwrap_or_else(PoisonError::into_inner);", "            .unwrap();")], 60000),
  ("c18-barrier-needs-arrival", "C18", [(HL, "*seen = *seen || slot.load(Ordering::SeqCst) == 0;", "*seen = *seen || slot.load(Ordering::SeqCst) == 1;")], 30000),
+ ("c09-eintr-not-retried", "C09", [(IT, "                    if error.kind() != ErrorKind::Interrupted {\n                        break Err(error);\n                    }", "                    break Err(error);")], 30000),
 ]
 
 def sh(cmd, **kw):
